@@ -214,15 +214,19 @@ def fill_ld_slice_padding(
     length_field_bits = intlog2(slice_data_bits)
     slice_data_bits -= length_field_bits
 
-    # Force the specified component to the full length
+    # Force the specified component to the full length (or, for luma, as much
+    # of it as the slice_y_length field can express: in a one-byte slice that
+    # field is zero bits wide)
     if component == "Y":
-        ld_slice["slice_y_length"] = slice_data_bits
+        component_bits = min(slice_data_bits, (1 << length_field_bits) - 1)
+        ld_slice["slice_y_length"] = component_bits
     else:
+        component_bits = slice_data_bits
         ld_slice["slice_y_length"] = 0
 
     # Work out the size of the padding bits
     bits_used_by_zeros = len(ld_slice["{}_transform".format(component.lower())])
-    padding_bits = slice_data_bits - bits_used_by_zeros
+    padding_bits = component_bits - bits_used_by_zeros
 
     data_start_offset_bits = 7 + length_field_bits
 
